@@ -224,8 +224,12 @@ Fixpoint set_nth (i : nat) (b : byte) (l : bytes) : bytes :=
   | _ :: r, O => b :: r
   | x :: r, S i' => x :: set_nth i' b r
   end.
-Definition EMAIL_MIN : nat := 6.     (* len("a@b.cc")   (inline literal in randomEmail, after the fix) *)
-Definition EMAIL_LONG : nat := 8.    (* len("a@b.cdef") (inline literal in randomEmail) *)
+(** The two length thresholds of randomEmail are inline literals of the Go code (len("a@b.cc") after the
+    fix, len("a@b.cdef")); Gen/TokenConsts.v carries their values MEASURED on the compiled code on every
+    run, so a change of either literal moves the model with the code and the shape proof has to hold
+    for the new value (Proofs/TokensShape.v: email_min_is_shortest_email, email_long_leaves_room). *)
+Definition EMAIL_MIN : nat := TOK_EMAIL_MIN.
+Definition EMAIL_LONG : nat := TOK_EMAIL_LONG.
 (** randomEmail (with the short-length fix: below EMAIL_MIN a plain random string) *)
 Definition random_email (n : nat) (t : tape) : res (bytes * tape) :=
   if Nat.ltb n EMAIL_MIN then random_string n t else
